@@ -10,7 +10,8 @@ from .common import *
 COMMON, BLOCK = "image/common.py", "image/block.py"
 TRUSTED = ["A-FLOAT: Python floats are treated as reals; round(x) is a fixed function within 1/2 of x (ties unconstrained, so ties-to-even is covered); "
            "int(x) of a float truncates, except that at a mathematically exact integer N it may give N or the neighbour towards zero (the "
-           "computed float may sit a hair off N) - the one place where the real-number reading would hide a float effect",
+           "computed float may sit a hair off N), and an order comparison of two floats that are mathematically equal may go either way - "
+           "the two places where the real-number reading would hide a float effect",
            "get_terminal_size() returns positive integers; get_cell_size() returns None or a pair of positive integers, constant during one sizing computation"]
 ASSUMPTIONS = ["A-FLOAT (IEEE-754 rounding error ignored)"]
 NOT_DECIDED = ["gap between reals and IEEE doubles (probed only by the bounded grid of the thorough tier)"]
